@@ -59,6 +59,7 @@ type Exec struct {
 	topStar bool
 	ghostSorts map[string]string
 	ghostIdx map[string]string
+	boxAx map[string]bool
 	entryAlloc Term
 	topCt *Contract
 	nepoch int
@@ -185,14 +186,36 @@ func (e *Exec) heapComp(st *State, name, idxSort, elemSort string) Term {
 	}
 	// not yet touched on this path: the initial symbol of the current heap epoch (epoch 0 = function
 	// entry; a call of unknown code starts a new epoch in which nothing is known about any component)
+	_ = idxSort
+	if st.etree != nil {
+		t := e.baseOfTree(st.etree, name, elemSort)
+		if e.quant == 0 && st.oldMode == 0 {
+			t = e.smt.define("hb."+name, t)
+			st.heap[name] = t
+		}
+		return t
+	}
+	return e.baseSym(st.epoch, name, elemSort)
+}
+
+func (e *Exec) baseSym(epoch int, name, elemSort string) Term {
 	sym := "H." + smtIdent(name) + "!0"
-	if st.epoch > 0 {
-		sym = fmt.Sprintf("H.%s!e%d", smtIdent(name), st.epoch)
+	if epoch > 0 {
+		sym = fmt.Sprintf("H.%s!e%d", smtIdent(name), epoch)
 	}
 	e.smt.declare(sym, elemSort)
-	_ = idxSort
-	t := Term{sym, elemSort}
-	return t
+	return Term{sym, elemSort}
+}
+
+func (e *Exec) baseOfTree(t *epochTree, name, elemSort string) Term {
+	if len(t.branches) == 0 {
+		return e.baseSym(t.epoch, name, elemSort)
+	}
+	r := e.baseOfTree(t.branches[len(t.branches)-1].sub, name, elemSort)
+	for i := len(t.branches) - 2; i >= 0; i-- {
+		r = tIte(t.branches[i].pc, e.baseOfTree(t.branches[i].sub, name, elemSort), r)
+	}
+	return r
 }
 
 func (e *Exec) setHeap(st *State, name string, t Term) {
@@ -704,24 +727,26 @@ func (e *Exec) merge(ins []edgeIn) *State {
 		return ins[0].st
 	}
 	out := &State{cells: map[*Cell]Value{}, heap: map[string]Term{}, locks: map[string]int{}, oldMode: ins[0].st.oldMode, epoch: ins[0].st.epoch}
-	for _, in := range ins[1:] {
-		if in.st.epoch != out.epoch {
-			// paths with different heap epochs: materialise every component either side knows about, the
-			// merged state continues in the epoch of the first path with explicit per-component merges
-			for _, in2 := range ins {
-				for _, in3 := range ins {
-					for k, t := range in3.st.heap {
-						if _, ok := in2.st.heap[k]; !ok {
-							in2.st.heap[k] = e.heapComp(in2.st, k, SInt, t.Sort)
-						}
-					}
-				}
-			}
-			e.nepoch++
-			out.epoch = e.nepoch
-			e.note("a join of paths with different heap epochs (one of them called unknown code) forgets untouched components")
-			break
+	mixed := false
+	for _, in := range ins {
+		if in.st.epoch != out.epoch || in.st.etree != nil {
+			mixed = true
 		}
+	}
+	if mixed {
+		// paths with different heap epochs: a component untouched so far resolves, when it is first
+		// used after the join, to the base symbol of the epoch of whichever path was taken
+		tr := &epochTree{}
+		for _, in := range ins {
+			sub := in.st.etree
+			if sub == nil {
+				sub = &epochTree{epoch: in.st.epoch}
+			}
+			tr.branches = append(tr.branches, epochBranch{pc: in.st.pc, sub: sub})
+		}
+		e.nepoch++
+		out.epoch = e.nepoch
+		out.etree = tr
 	}
 	var pcs []Term
 	for _, in := range ins {
